@@ -1781,7 +1781,8 @@ sexp sexp_quotient (sexp ctx, sexp a, sexp b) {
     }
     break;
   case SEXP_NUM_FIX_BIG:
-    r = SEXP_ZERO;
+    tmp = sexp_fixnum_to_bignum(ctx, a);
+    r = sexp_bignum_normalize(sexp_bignum_quotient(ctx, tmp, b));
     break;
   case SEXP_NUM_BIG_FIX:
     b = tmp = sexp_fixnum_to_bignum(ctx, b);
@@ -1860,7 +1861,8 @@ sexp sexp_remainder (sexp ctx, sexp a, sexp b) {
     r = sexp_fx_rem(a, b);
     break;
   case SEXP_NUM_FIX_BIG:
-    r = a;
+    tmp = sexp_fixnum_to_bignum(ctx, a);
+    r = sexp_bignum_normalize(sexp_bignum_remainder(ctx, tmp, b));
     break;
   case SEXP_NUM_BIG_FIX:
     r = sexp_bignum_fxrem(ctx, a, sexp_unbox_fixnum(b));
